@@ -687,7 +687,9 @@ def r04c(ck, prog):
                              "earlier files only - gaps in the file just read are not seen and survive into the alignment" % (
                                  need, late[0].text()[:40]), prog.config)
     # histogram merge is additive
-    hist = [x for x in M.body.find("CompoundAssignOperator") if "letter_freq" in x.kids[0].text()]
+    mfns = [M] + [H for H in (prog.fn(prog.resolve(c_.callee, M.file), required=False) for c_ in M.body.calls() if c_.callee)
+                  if H is not None and H.body is not None and H.static and H.file == M.file]
+    hist = [x for G_ in mfns for x in G_.body.find("CompoundAssignOperator") if "letter_freq" in x.kids[0].text()]
     if not any(x.d["op"] == "+=" and "letter_freq" in x.kids[1].text() for x in hist):
         ck.violation("R04c", "R04c/merge_msa/histogram", site(prog, M),
                      "merge_msa does not add the new file's letter histogram to the accumulated one", prog.config)
